@@ -863,14 +863,14 @@ def apply_over_axes(func, a, axes):
 def diff_helper(func, arr, *args, **kwargs):
     u = getattr(arr, "units", NULL_UNIT)
     if u.dimensions is temperature:
+        # a difference of readings on a zero-offset scale (K, R, mK, delta units)
+        # keeps its own unit; relabelling it delta_degC would need a rescaling
         if u.base_offset:
             raise InvalidUnitOperation(
                 "Quantities with units of Fahrenheit or Celsius "
                 "cannot be multiplied, divided, subtracted or added."
             )
-        ret_units = delta_degC
-    else:
-        ret_units = u
+    ret_units = u
     return func._implementation(np.asarray(arr), *args, **kwargs) * ret_units
 
 
